@@ -245,7 +245,8 @@ def check_value(v, codec, tzc):
     if a[0] == "date":
         delta = b[1] - a[1]
         cls = "date-subsecond" if abs(delta) < 1_000_000 else "date-shift"
-        return (cls, _node_detail(a, tzc), f"at {where}: instant moved by {delta} microseconds through {name} "
+        # a time zone can only move an instant by whole minutes: the zone class is part of the key for shifts only
+        return (cls, _node_detail(a, tzc if cls == "date-shift" else None), f"at {where}: instant moved by {delta} microseconds through {name} "
                                             f"(expected {a[1]} us since epoch, got {b[1]}; input form {a[2]})")
     if a[0] in ("array", "map"):
         return ("shape", _node_detail(a), f"at {where}: {a[0]} came back with different members through {name}: "
